@@ -133,10 +133,26 @@ def evaluate(sdir, tier, all_checks=False):
     patch = os.path.join(os.path.abspath(sdir), 'patch.diff')
     d = clone_at('HEAD')
     base = None
+    demo_src = os.path.join(sdir, 'demo.py')
     try:
         rc, out = sh(['git', 'apply', '--3way', patch], cwd=d)
         rcg, outg = sh('grep -rl "^<<<<<<<" lomond', cwd=d)
-        if rc or outg.strip():
+        neutral = False
+        if not (rc or outg.strip()) and os.path.exists(demo_src):
+            # Does the change still break the property on today's tree?  Its own demonstration decides: it must fail
+            # with the change and pass without.  (A later repair can neutralise a change - the reentrant lock of F24
+            # turns the self-deadlock of C09-d2 into a no-op - or move the code the demonstration reaches into.)
+            os.makedirs(os.path.join(d, 'MUTANT'), exist_ok=True)
+            shutil.copy(demo_src, os.path.join(d, 'MUTANT', 'demo.py'))
+            env0 = dict(os.environ, PYTHONDONTWRITEBYTECODE='1')
+            rc1, _o = sh([PY, 'MUTANT/demo.py'], cwd=d, env=env0, timeout=180)
+            sh(['git', 'stash', '-q'], cwd=d)
+            rc0, _o = sh([PY, 'MUTANT/demo.py'], cwd=d, env=env0, timeout=180)
+            sh(['git', 'stash', 'pop', '-q'], cwd=d)
+            neutral = (rc1 == 0 or rc0 != 0)
+            if neutral:
+                res['on_head'] = 'applies, but its demonstration no longer discriminates there (clean rc %s, changed rc %s)' % (rc0, rc1)
+        if rc or outg.strip() or neutral:
             shutil.rmtree(d, ignore_errors=True)
             base = base_commit_of(patch)
             if base is None:
